@@ -5,3 +5,6 @@ import Ymq.Props.C19Wied
 #print axioms Ymq.C19Wied.detp4_false_zero_iff_deficient
 #print axioms Ymq.C19Wied.detz_of_detp_partial
 #print axioms Ymq.C19Wied.detz_early_termination_witness
+#print axioms Ymq.C19Wied.mulp_spec
+#print axioms Ymq.C19Wied.mulp_overflow_witness
+#print axioms Ymq.C19Wied.detp4_lane_of_model
